@@ -21,7 +21,7 @@ Not decided: DFS order, pending-dependency arithmetic.
 """
 from facts import (cn, callee, cname, roots, op_local, place_fields)
 
-CRATES = ["boa_engine"]
+CRATES = ["boa_engine", "boa_ast"]
 EXPLANATION = (
     "Typestate extraction over the MIR of boa_engine::module::source: every closure handed to ModuleStatus::transition "
     "is explored path-sensitively per incoming enum variant to collect the variants it can return; who-may-call and "
@@ -327,3 +327,6 @@ def run(db, rep, tier):
     r3(db, rep)
     r4(db, rep)
     r5(db, rep)
+    # R6 = C04-R9: [[HasTLA]] is contains(module, AwaitExpression); the visitor must not look into arrow functions for it
+    import c04
+    c04.r9(db, rep)
